@@ -39,10 +39,15 @@ BASE_TRUSTED = [
 
 
 def load_known():
-    try:
-        return json.load(open(KNOWN))
-    except FileNotFoundError:
-        return []
+    """known_findings.json plus per-property fragments known/*.json (committed, never written at run time)."""
+    import glob
+    out = []
+    for f in [KNOWN] + sorted(glob.glob(os.path.join(ROOT, "known", "*.json"))):
+        try:
+            out.extend(json.load(open(f)))
+        except FileNotFoundError:
+            pass
+    return out
 
 
 def run_impl(script, build_dir, cases, jobs=6, timeout=600, extra_env=None):
